@@ -105,7 +105,8 @@ Definition crash (pick : nat -> nat) (s : st) : st :=
      live := None; next := next s; ack := ack s; top := top s; failed := false |}.
 
 (* ---- the operations of the state machine, as sequences of primitive steps ---- *)
-Inductive hop := HOpen | HUpdate | HSync | HClose | HRecover (n : nat).
+Inductive hop := HOpen | HUpdate | HSync | HClose | HRecover (n : nat)
+  | HRecoverStop (clean : bool).   (* an install given up on the stop signal (or a broken stream) before the switch *)
 
 (* GetCurrentDBDirName: the volatile content of "current" *)
 Definition read_cur (s : st) : option nat :=
@@ -140,12 +141,19 @@ Definition expand_gen (fx : bool) (h : hop) (s : st) : list prim :=
                     [PMkDb d; PDbLoad d n] ++ publish d ++ [PSetLive (Some d)] ++ cleanup (d :: v_dbs s) d ++ [PAck n]
       | None => []
       end
+  | HRecoverStop clean =>
+      (* the fresh directory exists, "current" was not touched; the snapshot format closes the new DB and cleans up
+         (everything but the live directory goes), the checkpoint format just returns *)
+      match live s with
+      | Some old => let d := next s in PMkDb d :: (if clean then cleanup (d :: v_dbs s) old else [])
+      | None => []
+      end
   end.
 Definition expand := expand_gen true.
 
 Definition bump (h : hop) (s : st) : st :=    (* a name, once drawn, is never drawn again *)
   match h with
-  | HOpen | HRecover _ => set_next s (S (next s))
+  | HOpen | HRecover _ | HRecoverStop _ => set_next s (S (next s))
   | _ => s
   end.
 
